@@ -13,4 +13,22 @@ template class Interval<double, 2>;
 template class Interval<float, 2>;
 template class Interval<double, 3>;
 template class Interval<float, 3>;
+#define ROMEA_VERIF_INST(S) \
+  template S between0And2Pi<S>(S); \
+  template S betweenMinusPiAndPi<S>(S); \
+  template S rotation2DToEulerAngle<S>(const Eigen::Matrix<S, 2, 2> &); \
+  template Eigen::Matrix<S, 2, 2> eulerAngleToRotation2D<S>(const S &); \
+  template Eigen::Matrix<S, 3, 1> rotation3DToEulerAngles<S>(const Eigen::Matrix<S, 3, 3> &); \
+  template Eigen::Matrix<S, 3, 1> quaternionToEulerAngles<S>(const Eigen::Quaternion<S> &); \
+  template Eigen::Quaternion<S> eulerAnglesToQuaternion<S>(const Eigen::Matrix<S, 3, 1> &); \
+  template Eigen::Matrix<S, 3, 3> eulerAnglesToRotation3D<S>(const Eigen::Matrix<S, 3, 1> &); \
+  template PolarCoordinates<S> toPolar<S>(const CartesianCoordinates2<S> &); \
+  template CartesianCoordinates2<S> toCartesian<S>(const PolarCoordinates<S> &); \
+  template HomogeneousCoordinates2<S> toHomogeneous<S>(const PolarCoordinates<S> &); \
+  template SphericalCoordinates<S> toSpherical<S>(const CartesianCoordinates3<S> &); \
+  template SphericalCoordinates<S> toSpherical<S>(const HomogeneousCoordinates3<S> &); \
+  template CartesianCoordinates3<S> toCartesian<S>(const SphericalCoordinates<S> &); \
+  template HomogeneousCoordinates3<S> toHomogeneous<S>(const SphericalCoordinates<S> &);
+ROMEA_VERIF_INST(double)
+ROMEA_VERIF_INST(float)
 }}
